@@ -14,6 +14,7 @@ import (
 	"os"
 	"os/exec"
 	"path/filepath"
+	"sort"
 	"strings"
 	"time"
 
@@ -149,7 +150,10 @@ func dur(d time.Duration) *durationpb.Duration { return durationpb.New(d) }
 
 var int32s = []int32{math.MinInt32, -1, 0, 1, 1000, math.MaxInt32}
 
-func buildRequests(liveAck, staleAck, foreignAck string) []c16req {
+func buildRequests(live []string, staleAck, foreignAck string) []c16req {
+	// (every request that settles a live ack id has its OWN live id: an Acknowledge answered with an
+	// error after it has settled one must show as a changed table whatever ran before it)
+	liveAck := live[0]
 	var rs []c16req
 	add := func(rpc, desc string, f func(ctx context.Context, cc *grpc.ClientConn) error) {
 		rs = append(rs, c16req{rpc, desc, f})
@@ -158,10 +162,15 @@ func buildRequests(liveAck, staleAck, foreignAck string) []c16req {
 	subNames := []string{"projects/p/subscriptions/s0", "projects/p/subscriptions/unknown", "projects/p/topics/t0", "", "projects/p/subscriptions/", "garbage"}
 	snapNames := []string{"projects/p/snapshots/n0", "projects/p/snapshots/unknown", "projects/p/subscriptions/s0", "", "garbage"}
 	ackSets := map[string][]string{"none": nil, "live": {liveAck}, "stale": {staleAck}, "foreign": {foreignAck}, "garbage": {"not-a-uuid"},
-		"empty-string": {""}, "unknown": {uuid.New().String()}, "mixed": {liveAck, staleAck, uuid.New().String()}, "mixed-garbage": {liveAck, "zzz"}, "dup": {liveAck, liveAck},
+		"empty-string": {""}, "unknown": {uuid.New().String()}, "mixed": {live[1], staleAck, uuid.New().String()}, "mixed-garbage": {live[2], "zzz"}, "dup": {live[3], live[3]},
 		// garbage of exactly the canonical length of a UUID (36 bytes): not hex, no dashes, a live id with one character damaged
 		"garbage-36": {strings.Repeat("z", 36)}, "hex-36": {strings.Repeat("0123456789abcdef", 2) + "0123"}, "damaged-live": {liveAck[:7] + "g" + liveAck[8:]},
-		"mixed-garbage-36": {liveAck, strings.Repeat(" ", 36)}}
+		"mixed-garbage-36": {live[4], strings.Repeat(" ", 36)}}
+	var ackSetNames []string
+	for an := range ackSets {
+		ackSetNames = append(ackSetNames, an)
+	}
+	sort.Strings(ackSetNames)
 	P := func(cc *grpc.ClientConn) pubsubpb.PublisherClient { return pubsubpb.NewPublisherClient(cc) }
 	S := func(cc *grpc.ClientConn) pubsubpb.SubscriberClient { return pubsubpb.NewSubscriberClient(cc) }
 	for _, n := range topicNames {
@@ -440,8 +449,8 @@ func buildRequests(liveAck, staleAck, foreignAck string) []c16req {
 			_, err := S(cc).GetSubscription(ctx, &pubsubpb.GetSubscriptionRequest{Subscription: n})
 			return err
 		})
-		for an, ids := range ackSets {
-			ids, an := ids, an
+		for _, an := range ackSetNames {
+			ids, an := ackSets[an], an
 			add("Acknowledge", fmt.Sprintf("sub=%q ids=%s", n, an), func(ctx context.Context, cc *grpc.ClientConn) error {
 				_, err := S(cc).Acknowledge(ctx, &pubsubpb.AcknowledgeRequest{Subscription: n, AckIds: ids})
 				return err
@@ -612,13 +621,14 @@ func cmdC16(args []string) error {
 	run(&Op{Kind: "DeleteTopic", Name: "projects/p/topics/tdel"})
 	run(&Op{Kind: "CreateSub", Sub: &SubReq{Name: "projects/p/subscriptions/s0", Topic: "projects/p/topics/t0"}})
 	run(&Op{Kind: "CreateSub", Sub: &SubReq{Name: "projects/p/subscriptions/s1", Topic: "projects/p/topics/t0"}})
-	run(pub(6, ""))
-	o0 := run(&Op{Kind: "Pull", Name: "projects/p/subscriptions/s0", Max: 2})
+	run(pub(10, ""))
+	o0 := run(&Op{Kind: "Pull", Name: "projects/p/subscriptions/s0", Max: 6})
 	o1 := run(&Op{Kind: "Pull", Name: "projects/p/subscriptions/s1", Max: 1})
 	ids0 := mustIDs(o0)
 	run(&Op{Kind: "Ack", Name: "projects/p/subscriptions/s0", AckIDs: ids0[1:2]})
 	run(&Op{Kind: "CreateSnap", Name: "projects/p/snapshots/n0", Name2: "projects/p/subscriptions/s0"})
-	liveAck, staleAck, foreignAck := ids0[0], ids0[1], mustIDs(o1)[0]
+	staleAck, foreignAck := ids0[1], mustIDs(o1)[0]
+	liveAcks := append([]string{ids0[0]}, ids0[2:]...)
 	dir := e.Dir
 	dbPath := e.DBPath
 	e.Dir = filepath.Join(dir, "nonexistent-so-close-keeps-the-db")
@@ -636,7 +646,7 @@ func cmdC16(args []string) error {
 		return err
 	}
 	defer func() { ch.stop() }()
-	reqs := buildRequests(liveAck, staleAck, foreignAck)
+	reqs := buildRequests(liveAcks, staleAck, foreignAck)
 	var results []c16result
 	outcomes := map[string]int{}
 	perRPC := map[string]int{}
